@@ -279,6 +279,7 @@ def body_hist(cube, **kw):
     from maltoolbox.model import AttackerAttachment
     k = cube['k']
     bits = {b: bool(kw[b]) for b in ('x2', 'l01', 'l12', 'l00', 'pk', 'att')}
+    bits['ps'] = bool(kw['ps']) if 'ps' in kw else False
     ops = []
     for s in range(k):
         o = idx(kw['o%d' % s], len(OPS))
@@ -311,7 +312,10 @@ def body_hist(cube, **kw):
         if bits['l12'] and bits['x2'] and not bits['pk']:
             L([1], [2])
         if bits['l00']:
-            L([0], [0])
+            if bits['ps'] and bits['x2'] and not bits['pk']:
+                L([0, 1], [0, 2])      # asset 0 in both fields, each field keeps another member
+            else:
+                L([0], [0])
         if bits['att']:
             t = AttackerAttachment(name='att')
             m.add_attacker(t)
@@ -329,30 +333,37 @@ def body_hist(cube, **kw):
 
 def queries(tier):
     k = 1 if tier == 'quick' else 2
-    ps = [B(b) for b in ('x2', 'l01', 'l12', 'l00', 'pk', 'att')]
+    ps = [B(b) for b in ('x2', 'l01', 'l12', 'l00', 'pk', 'att', 'ps')]
     for s in range(k):
         ps += [I('o%d' % s, 0, len(OPS) - 1), I('x%d' % s, 0, 4), I('y%d' % s, 0, 3), I('z%d' % s, 0, 1)]
     wit = []
     for o in range(len(OPS)):
         w = {p.name: (1 if p.typ == 'int' else True) for p in ps}
-        w.update({'o0': o, 'pk': False})
+        w.update({'o0': o, 'pk': False, 'ps': (o % 2 == 1), 'l12': (o % 2 == 0)})
         if k > 1:
             w['o1'] = 9 if o == 1 else (o + 1) % len(OPS)
         wit.append(({'k': k}, w))
     qs = []
     if tier == 'quick':
         # removal followed by re-adding the removed id and name (no trace in the reserved ids and names)
-        ps2 = [B(b) for b in ('x2', 'l01', 'l12', 'l00', 'pk', 'att')] + [I('x0', 0, 4)] + \
+        ps2 = [B(b) for b in ('x2', 'l01', 'l12', 'l00', 'pk', 'att', 'ps')] + [I('x0', 0, 4)] + \
               [I('o1', 0, len(OPS) - 1), I('x1', 0, 4), I('y1', 0, 3), I('z1', 0, 1)]
         w = {p.name: (1 if p.typ == 'int' else True) for p in ps2}
-        w.update({'pk': False, 'o1': 9})
-        qs.append(Query(name='readd', body=body_hist, params=ps2, cubes=[{'k': 2, '_fixed': {'o0': 1}}], pre=['o1 == 9'],
+        w.update({'pk': False, 'ps': True, 'l12': False, 'o1': 9})
+        qs.append(Query(name='readd', body=body_hist, params=ps2, cubes=[{'k': 2, '_fixed': {'o0': 1}}], pre=['o1 == 9', 'not ps or (l00 and x2 and not pk and not l12)'],
                         split=['x0'], timeout=600, witnesses=[({'k': 2, '_fixed': {'o0': 1}}, w)],
                         bound='every pre-state, remove_asset of every slot, then re-adding the removed id and name with duplicates forbidden'))
+        ps3 = [B(b) for b in ('x2', 'l01', 'l12', 'l00', 'pk', 'att')] + [I('x0', 0, 4), I('y0', 0, 3), I('z0', 0, 1), I('x1', 0, 4), I('y1', 0, 3), I('z1', 0, 1)]
+        w3 = {p.name: (1 if p.typ == 'int' else True) for p in ps3}
+        w3.update({'pk': False, 'x0': 2, 'y0': 1, 'z0': 0, 'x1': 2, 'y1': 0, 'z1': 1})
+        qs.append(Query(name='rejadd', body=body_hist, params=ps3, cubes=[{'k': 2, '_fixed': {'o0': 0, 'o1': 0}}],
+                        pre=['y0 == 1 and z0 == 0', 'x1 == x0', 'l12 == l01 and not l00 and not pk'], split=['x0'], timeout=600,
+                        witnesses=[({'k': 2, '_fixed': {'o0': 0, 'o1': 0}}, w3)],
+                        bound='add_asset rejected for its duplicate name (every explicit id) followed by add_asset with the same id: a raising call leaves no trace'))
     return qs + [Query(name='hist', body=body_hist, params=ps, cubes=[{'k': k}], split=['o0', 'x0'] if k == 1 else ['o0', 'o1'],
-                       pre=[] if k == 1 else ['x2 and att'],
+                       pre=['not ps or (l00 and x2 and not pk and not l12)'] if k == 1 else ['x2 and att', 'not ps or (l00 and not pk and not l12)'],
                   timeout=600 if tier == 'quick' else 1700, witnesses=wit,
-                  bound='language L_MINI (type N, self-association PQ(p,q)); pre-state from 6 bits (third asset, links 0-1, 1-2, self-link 0-0, one association '
+                  bound='language L_MINI (type N, self-association PQ(p,q)); pre-state from 7 bits (third asset, links 0-1, 1-2, self-link 0-0 alone or with other members in both fields, one association '
                         'holding two assets in one field, attacker with an entry point), built through the API; then every sequence of %d operation(s) from %s '
                         'with valid and invalid arguments (asset ids %s, duplicate names, removed / foreign objects)' % (k, OPS, AIDS))]
 
